@@ -27,6 +27,7 @@ def run(tier, rep, work):
     for i, cfg in enumerate(cfgs):
         vecfam.run_config(rep, work, exe, d, "C13", tier, cfg, givf if cfg["gen"] else None, i)
     rep.cov["exhaustive"] = True
+    rep.cov["exhaustive_scope"] = "every history of the IVF model space is replayed on real IVF indexes for the three metrics; random histories are samples"
     rep.cov["rule"] = vecfam.RULE + " IVF specifics: every add logs the inverted list the vector was stored in (checked against argmin of the vector-centroid table), searches use nprobes in {-1, 1, 2, 3, nlist-1, nlist, nlist+5}; an admissible probe set is any set of p clusters not beaten by an excluded one; operations before Train must fail."
     rep.cov["trusted_base"] = ["TLC", "float64 reference evaluator; centroid distances computed as the index documents them (1 - a.b on the stored centroid under cosine)",
                                "verif accessors VerifCentroids / VerifClusterOf"]
